@@ -40,7 +40,7 @@ ASSUMPTIONS = [
 def C(name, props, **kw):
     d = dict(name=name, props=set(props.split()), targets=[b'a', b'b'], flavour='redo', keep_going=False, top_level=2, pipe0=1,
              others0=0, prior=None, other_locks=None, sub_target=None, shuffle=False, no_do=(), select_budget=0, race=(), deps=(),
-             free_at_try=None, cycles=())
+             free_at_try=None, cycles=(), foreign_parent=False)
     d.update(kw)
     return d
 
@@ -66,13 +66,22 @@ def configs(thorough):
         C('redo a ./a -j2', 'C07 C09', targets=[b'a', b'./a']),
         C('redo a ./a -j1', 'C07 C09', targets=[b'a', b'./a'], top_level=1, pipe0=0),
         C('redo a ""', 'C05 C09', targets=[b'a', b'']),
+        C('redo a ./a: a locked by another redo, which builds it', 'C07 C09', targets=[b'a', b'./a'], other_locks={b'a': 'built'}),
         C('redo --shuffle a b', 'C07', shuffle=True),
         C('redo a b: b locked by another redo, which builds it', 'C05 C06 C07 C08 C09', other_locks={b'b': 'built'}),
         C('redo a b: b locked by another redo, which fails', 'C05 C06 C09', other_locks={b'b': 'failed'}),
         C('ifchange a b: b locked by another redo, which builds it', 'C06 C07 C09', flavour='ifchange', top_level=0, pipe0=1,
           other_locks={b'b': 'built'}),
-        C('ifchange a b: b locked by another redo, which fails', 'C05 C06', flavour='ifchange', top_level=0, pipe0=1,
+        C('ifchange a b: b locked by another redo, which fails', 'C05 C06 C08', flavour='ifchange', top_level=0, pipe0=1,
           other_locks={b'b': 'failed'}),
+        C('redo b (inherited jobserver): b locked by another redo, which fails', 'C08 C09', targets=[b'b'], top_level=0, pipe0=0, others0=1,
+          other_locks={b'b': 'failed'}),
+        # directly below GNU make: the cheat pipe is this process's own, nobody reads what it writes there
+        C('redo a b (GNU make jobserver): b locked by another redo, which fails', 'C08', top_level=0, pipe0=1, others0=0,
+          other_locks={b'b': 'failed'}, foreign_parent=True),
+        C('redo a b (GNU make jobserver): b locked by another redo, which builds it', 'C08', top_level=0, pipe0=1, others0=0,
+          other_locks={b'b': 'built'}, foreign_parent=True),
+        C('ifchange a b (GNU make jobserver)', 'C08', flavour='ifchange', top_level=0, pipe0=1, foreign_parent=True),
         C('redo b: the holder of b finishes between the row read and the lock attempt', 'C06', targets=[b'b'], other_locks={b'b': 'built'},
           race=(b'b',)),
         C('ifchange b: the holder of b finishes between the row read and the lock attempt', 'C06', targets=[b'b'], flavour='ifchange',
@@ -145,6 +154,19 @@ def install(eng):
         e.world.ev('job-start', target=name)
     eng.probes['JobServerHandle::start'] = probe_start
 
+    # a job that is finished the moment it is created (future::ready(rv)): refused / no rule / nothing to do
+    base_ready = eng.summaries.get('future::ready')
+    if base_ready is not None and not getattr(base_ready, '_sched_wrapped', False):
+        def ready(e, ci, a, sp):
+            v = a[0]
+            ev = getattr(e.world, 'ev', None)
+            if ev is not None and isinstance(v, int) and isinstance(getattr(e.world, 'log', None), list):
+                ev('ready-job', rv=v)
+            return base_ready(e, ci, a, sp)
+        ready._sched_wrapped = True
+        for k in ('future::ready', 'std::future::ready', 'futures::future::ready'):
+            eng.summaries[k] = ready
+
 
 def explore(chk, pid, scn=None):
     eng = chk.eng
@@ -205,7 +227,8 @@ def run_config(chk, pid, cfg):
                'keep_going': cfg['keep_going'], 'top_level': cfg['top_level'], 'pipe0': cfg['pipe0'], 'others0': cfg['others0'],
                'statuses': F['status_by_target'], 'events': F['digest'], 'scenario': scenario_key(cfg, F),
                'other_locks': {k.decode('latin-1'): v for k, v in (cfg['other_locks'] or {}).items()},
-               'variant': 'locked' if cfg['other_locks'] else ('unlocked-job' if cfg['deps'] else 'plain')}
+               'variant': 'locked' if cfg['other_locks'] else ('unlocked-job' if cfg['deps'] else (
+                   'nojob' if (cfg['no_do'] or cfg['prior']) else 'plain'))}
         if pid != 'C12':
             chk.goal('sched: two jobs run at the same time', w.max_running >= 2)
             chk.goal('sched: a job fails', any(v == 'fail' for v in F['status_by_target'].values()))
@@ -291,6 +314,11 @@ def facts(eng, w, cfg):
                 # a failure recorded without a child (no rule to build it)
                 first_failure_known = i
                 digest.append('failed-without-job(%s)' % nm.decode('latin-1'))
+        elif k == 'ready-job':
+            if d['rv'] != 0:
+                digest.append('job-finished-at-once(rv=%d)' % d['rv'])
+                if first_failure_known is None:
+                    first_failure_known = i
         elif k == 'sql-commit':
             for fid, js in list(jobstate.items()):
                 if js == 'recorded':
@@ -504,7 +532,12 @@ def judge_c08(chk, eng, cfg, st, F, outcome, val, wit):
     if any(c['state'] != 'reaped' for c in w.children):
         return None           # abandoned children: covered by the jobserver client scripts
     if cfg['top_level'] == 0:
-        end = w.P + w.others - w.X + 1
+        # a redo parent reads the cheat pipe and withholds one token per byte; below a foreign jobserver (GNU make) the cheat pipe
+        # is private to this process and a byte written there compensates nothing
+        end = w.P + w.others - (0 if cfg['foreign_parent'] else w.X) + 1
+        if cfg['foreign_parent']:
+            chk.goal('C08: exit ledger below a foreign (GNU make) jobserver checked')
+            wit['variant'] = 'foreign'
         if end != w.q0:
             return {'role': 'sched:exit-ledger', 'kind': 'sched', 'witness': wit,
                     'what': 'the process exits having %s %d token(s): pipe+others-cheat_bytes+1 = %d, the world started with %d' % (
@@ -602,6 +635,12 @@ REPLAYS = {
         'i=0; while [ $i -lt 40 ]; do i=$((i+1)); rm -rf .redo a b trace; redo --no-log -j1 a b >/dev/null 2>&1; rc=$?; '
         'if grep -q "^b$" trace 2>/dev/null; then echo "REPRODUCED: run $i of redo -j1 a b: a.do exited 1 (exit status $rc) and b.do was started afterwards"; exit 0; fi; done; '
         'echo "not reproduced in $i runs"', 'REPRODUCED'),
+    # the failure is known without a child of this command (no rule to build the target)
+    'sched:started-after-failure/nojob': (
+        {'b.do': TRACE_DO % ('b', 'b')},
+        'redo --no-log -j1 norule b >out.log 2>&1; rc=$?; tail -3 out.log; '
+        'if grep -q "^b$" trace 2>/dev/null; then echo "REPRODUCED: redo -j1 norule b: there is no rule for norule (exit status $rc), and b.do was started afterwards"; else echo "b.do was not started, exit $rc"; fi',
+        'REPRODUCED'),
     # the failure happens while the command waits for its running jobs at the start of the second phase; a target that another
     # redo holds is still waited for and built afterwards
     'sched:started-after-failure/locked': (
@@ -610,6 +649,35 @@ REPLAYS = {
         'touch hold; redo --no-log b >helper.log 2>&1 & sleep 0.5; (redo --no-log -j2 a b >main.log 2>&1; echo "main exit $?" >>main.log) & '
         'sleep 2.5; rm -f hold; wait; n=$(grep -c "^b$" trace); tail -3 main.log; '
         'if [ "$n" -ge 2 ]; then echo "REPRODUCED: redo -j2 a b (a.do fails after 1 s, b locked by another redo until 2.5 s): b.do was run $n times - the command went on to wait for and build b after the failure of a was known"; else echo "b.do ran $n time(s)"; fi',
+        'REPRODUCED'),
+    # below GNU make (own cheat pipe): R2 = `redo gate x` under MAKEFLAGS with an empty token pipe; R1 = a later `redo x` that holds x
+    # and fails; R2 waits for x, sees the failure; afterwards the bytes in the token pipe are counted
+    'sched:exit-ledger/foreign': (
+        {'gate.do': 'sleep 1\necho gate\n', 'x.do': 'echo x >> trace\nwhile [ -e hold ]; do sleep 0.1; done\nexit 1\n',
+         'count.py': 'import os\nfd = os.open("jp", os.O_RDONLY | os.O_NONBLOCK)\ntry:\n    print(len(os.read(fd, 100)))\nexcept BlockingIOError:\n    print(0)\n'},
+        'mkfifo jp; exec 3<>jp 4<>jp; touch hold; '
+        '(MAKEFLAGS=" -j --jobserver-auth=3,4" redo --no-log gate x >r2.log 2>&1; echo "r2 exit $?" >>r2.log) & sleep 0.4; '
+        '(redo --no-log x >r1.log 2>&1; echo "r1 exit $?" >>r1.log) 3<&- 4<&- & sleep 1.6; rm -f hold; wait; '
+        'n=$(python3 count.py); tail -2 r2.log | cut -c1-200; '
+        'if [ "$n" != 0 ]; then echo "REPRODUCED: a redo below a make-style jobserver (token pipe empty at the start, took nothing) left $n token(s) in the pipe"; else echo "token pipe empty again"; fi',
+        'REPRODUCED'),
+    # a sub-redo that gave its token up while waiting for a lock must get one back although it has no child of its own
+    'sched:hang': (
+        {'a.do': 'redo-ifchange c\necho a\n', 'b.do': 'sleep 0.7\nredo-ifchange c\necho b\n', 'c.do': 'sleep 2\necho c\n'},
+        'timeout 25 redo --no-log -j2 a b >out.log 2>&1; rc=$?; tail -3 out.log | cut -c1-160; '
+        'if [ $rc -eq 124 ]; then echo "REPRODUCED: redo --no-log -j2 a b (a and b both need c, which takes 2 s) does not finish within 25 s"; else echo "finished, exit $rc"; fi',
+        'REPRODUCED'),
+    # one target under two spellings, held by another redo when the command reaches it
+    'sched:target-run-twice/locked': (
+        {'c.do': 'echo c >> trace\nwhile [ -e hold ]; do sleep 0.1; done\necho c\n'},
+        'touch hold; redo --no-log c >helper.log 2>&1 & sleep 0.5; (redo --no-log -j2 c ./c >main.log 2>&1; echo "main exit $?" >>main.log) & '
+        'sleep 1; rm -f hold; wait; n=$(grep -c "^c$" trace); tail -2 main.log; '
+        'if [ "$n" -ge 3 ]; then echo "REPRODUCED: redo c ./c while another redo holds c: c.do ran $n times (once by the holder, $((n-1)) times by this one command)"; else echo "c.do ran $n times (holder + once)"; fi',
+        'REPRODUCED'),
+    'sched:target-run-twice': (
+        {'a.do': 'echo a >> trace\nsleep 0.5\necho a\n', 'b.do': 'echo b\n'},
+        'redo --no-log -j1 a ./a >o1.log 2>&1; r1=$?; redo --no-log -j2 a b a >o2.log 2>&1; r2=$?; n=$(grep -c "^a$" trace); tail -2 o1.log o2.log | cut -c1-160; '
+        'if [ "$n" -gt 2 ] || [ $r1 -ne 0 ] || [ $r2 -ne 0 ]; then echo "REPRODUCED: redo a ./a and redo a b a: a.do ran $n times in two commands (exit $r1, $r2)"; else echo "a.do ran once per command"; fi',
         'REPRODUCED'),
     # a second request for x (same run) arrives while x is being built and x.do then fails
     'sched:rebuilt-after-other-failed': (
